@@ -5,12 +5,12 @@ package main
 // temporaries, statement order and block structure; it is not source text.
 
 import (
-	"os"
 	"fmt"
 	"go/ast"
 	"go/constant"
 	"go/token"
 	"go/types"
+	"os"
 	"sort"
 	"strings"
 
@@ -1200,5 +1200,30 @@ func (r *renderer) indexLoopSubject(phi *ssa.Phi, d int) (string, bool) {
 	if !loopInvariant(ln.Call.Args[0], blk) {
 		return "", false // the length is re-read in every iteration: not the iteration of `range`
 	}
+	if !indexesOnly(phi, ln.Call.Args[0]) {
+		return "", false // the elements are read from a slice fetched again inside the loop
+	}
 	return r.val(ln.Call.Args[0], d+1), true
+}
+
+// indexesOnly: wherever the counter phi is used as an index, the indexed slice is the very value
+// whose length bounds the loop (not a second read of the same variable, which may have changed).
+func indexesOnly(phi *ssa.Phi, slice ssa.Value) bool {
+	for _, r := range referrersOf(phi) {
+		switch x := r.(type) {
+		case *ssa.IndexAddr:
+			if x.Index == ssa.Value(phi) && x.X != slice {
+				return false
+			}
+		case *ssa.Index:
+			if x.Index == ssa.Value(phi) && x.X != slice {
+				return false
+			}
+		case *ssa.Lookup:
+			if x.Index == ssa.Value(phi) && x.X != slice {
+				return false
+			}
+		}
+	}
+	return true
 }
